@@ -236,10 +236,14 @@ def getattr_(E, obj, name, node=None):
         r = hook(obj, name, node)
         if r is not None:
             return r
+    if name in ('utcoffset', 'total_seconds', 'match', 'groups', 'search'):
+        E.assumptions.add('closed world: tzinfo/timedelta/compiled-pattern objects are the stdlib ones '
+                          '(methods utcoffset/total_seconds/match exist and do not raise)')
+        return I.SBuiltinMethod(obj, name)
     # which kinds can it be?
     if name in STR_METHODS | BYTES_METHODS | DICT_METHODS | LIST_METHODS | SET_METHODS:
         isobj = z3.simplify(V.is_VObj(t))
-        if not z3.is_true(isobj):
+        if not E.must(isobj):
             need = []
             if name in STR_METHODS:
                 need.append(V.is_VStr(t))
@@ -259,7 +263,7 @@ def getattr_(E, obj, name, node=None):
                 need.append(V.is_VTuple(t))
             okc = z3.Or(*need)
             # objects may define anything: treated below only when it must be an object
-            maybe_obj = E.path.check(isobj) != z3.unsat if not E.merge else False
+            maybe_obj = (not E.must(z3.Not(isobj))) if not E.merge else False
             if not maybe_obj:
                 E.fail_if(z3.Not(okc), AttributeError, name)
                 return I.SBuiltinMethod(obj, name)
@@ -269,12 +273,14 @@ def getattr_(E, obj, name, node=None):
             return I.SBuiltinMethod(obj, name)
     isobj = z3.simplify(V.is_VObj(t))
     iscls = z3.simplify(V.is_VClass(t))
-    if z3.is_true(isobj):
+    if E.must(isobj):
         return object_getattr(E, obj, name, node)
-    if z3.is_true(iscls):
+    if E.must(iscls):
         return class_getattr(E, obj, name, node)
-    if z3.is_true(z3.simplify(V.is_VDatetime(t))):
+    if E.must(V.is_VDatetime(t)):
         return datetime_getattr(E, obj, name, node)
+    if E.merge:
+        raise _I().Unsupported('attribute %s of a value of undetermined kind in a specification' % name)
     # unknown kind: fork on object / class / datetime / other
     k = E.path.choose([isobj, iscls, V.is_VDatetime(t),
                        z3.Not(z3.Or(isobj, iscls, V.is_VDatetime(t)))],
@@ -359,7 +365,7 @@ def object_getattr(E, obj, name, node):
     """Attribute of an instance (VObj) of classes of the tree."""
     I = _I()
     t = obj.t
-    oid = Val.oid(t)
+    oid = z3.simplify(Val.oid(t))
     if name == '__class__':
         return type_of(E, obj)
     cands, sym = class_candidates(E, oid)
@@ -379,6 +385,12 @@ def object_getattr(E, obj, name, node):
         if st is not _MISSING and isinstance(st, (int, float, str, bool, type(None), tuple)):
             key = ('const', repr(st))
         groups.setdefault(key, (st, []))[1].append(K)
+    if len(groups) > 1:
+        # dynamic dispatch to several overrides: use the contract of the
+        # (virtual) base method when one is registered
+        for (owner, mname), basefn in getattr(E, 'virtual', {}).items():
+            if mname == name and all(issubclass(K, owner) for K in cands):
+                return I.SBound(basefn, obj, owner)
     if len(groups) > 1 and E.merge:
         # merge mode: class-dependent constants become an ite over the class id
         c = E.classes.cls_of(oid)
@@ -401,7 +413,7 @@ def object_getattr(E, obj, name, node):
 
 def resolve_static(E, obj, name, st, ks, node):
     I = _I()
-    oid = Val.oid(obj.t)
+    oid = z3.simplify(Val.oid(obj.t))
     if st is _MISSING or type(st).__name__ == 'member_descriptor':
         r = z3.Select(E.path.heap_arr(name), oid)
         E.fail_if(r == Val.VAbsent, AttributeError, name)
@@ -574,11 +586,18 @@ def getitem(E, obj, idx, node=None):
     isl, ist, ln, arr = seq_parts(t)
     isseq = z3.simplify(z3.Or(isl, ist))
     isstr = z3.simplify(V.is_VStr(t))
-    ok = z3.simplify(z3.Or(isd, isseq, isstr))
-    E.fail_if(z3.Not(ok), TypeError, 'not subscriptable')
-    k = E.path.choose([isd, isseq, isstr], ['dict', 'seq', 'str']) if not E.merge else None
-    if E.merge:
-        raise I.Unsupported('subscript of unknown kind in merge mode')
+    if E.must(isd):
+        k = 0
+    elif E.must(isseq):
+        k = 1
+    elif E.must(isstr):
+        k = 2
+    elif E.merge:
+        raise I.Unsupported('subscript of a value of undetermined kind in a specification')
+    else:
+        ok = z3.simplify(z3.Or(isd, isseq, isstr))
+        E.fail_if(z3.Not(ok), TypeError, 'not subscriptable')
+        k = E.path.choose([isd, isseq, isstr], ['dict', 'seq', 'str'])
     if k == 0:
         kt = E.lift(idx)
         E.path.assume(vals.key_axiom(kt))
@@ -663,9 +682,15 @@ def contains_symbolic(E, cont, item, node):
     isl, ist, ln, arr = seq_parts(t)
     isseq = z3.simplify(z3.Or(isl, ist))
     isstr = z3.simplify(V.is_VStr(t))
+    it = E.lift(item)
+    if E.must(isd):
+        E.scoped_assume(vals.key_axiom(it))
+        return z3.Select(V.dm(t), vals.KeyId(it)) != V.VAbsent
+    if E.must(isset):
+        E.scoped_assume(vals.key_axiom(it))
+        return z3.Select(V.sm(t), vals.KeyId(it))
     ok = z3.simplify(z3.Or(isd, isset, isseq, isstr))
     E.fail_if(z3.Not(ok), TypeError, 'argument of type is not iterable')
-    it = E.lift(item)
     if E.merge:
         E.path.assume(vals.key_axiom(it)) if E.path is not None else None
         return z3.If(isd, z3.Select(V.dm(t), vals.KeyId(it)) != V.VAbsent,
@@ -681,7 +706,7 @@ def contains_symbolic(E, cont, item, node):
         j = E.path.fresh('j', z3.IntSort())
         # membership in a symbolic sequence: existential
         i = z3.Int('mem_i')
-        return z3.Exists([i], z3.And(i >= 0, i < ln, z3.Select(arr, i) == it))
+        return E.path.quant(z3.Exists([i], z3.And(i >= 0, i < ln, z3.Select(arr, i) == it)))
     E.fail_if(z3.Not(V.is_VStr(it)), TypeError, 'in <str> requires str')
     return z3.Contains(V.s(t), V.s(it))
 
@@ -867,16 +892,18 @@ def binop(E, op, a, b, node):
     if isinstance(op, ast.Add):
         both_str = z3.simplify(z3.And(V.is_VStr(ta), V.is_VStr(tb)))
         both_list = z3.simplify(z3.And(V.is_VList(ta), V.is_VList(tb)))
+        if E.must(both_str):
+            return I.T(V.VStr(str_concat(E, V.s(ta), V.s(tb))))
+        if E.must(both_list):
+            return list_concat(E, ta, tb)
         ok = z3.simplify(z3.Or(both_num, both_str, both_list))
         E.fail_if(z3.Not(ok), TypeError, '+ on incompatible kinds')
-        if z3.is_true(both_str):
-            return I.T(V.VStr(z3.Concat(V.s(ta), V.s(tb))))
-        if z3.is_true(both_list):
-            return list_concat(E, ta, tb)
-        if not z3.is_true(both_num):
+        if not E.must(both_num):
+            if E.merge:
+                raise I.Unsupported('+ on operands of undetermined kind in a specification')
             k = E.path.choose([both_num, both_str, both_list], ['num', 'str', 'list'])
             if k == 1:
-                return I.T(V.VStr(z3.Concat(V.s(ta), V.s(tb))))
+                return I.T(V.VStr(str_concat(E, V.s(ta), V.s(tb))))
             if k == 2:
                 return list_concat(E, ta, tb)
     else:
@@ -903,6 +930,19 @@ def binop(E, op, a, b, node):
             return I.T(V.VInt(fl))
         return I.T(V.VInt(ia - ib * fl))
     raise I.Unsupported('binary operator %s on symbolic operands' % type(op).__name__)
+
+
+def str_concat(E, a, b):
+    """String concatenation: the string theory when the engine runs in
+    ``string_theory`` mode, otherwise an uninterpreted (deterministic) function
+    -- enough wherever only equality of built strings matters."""
+    if getattr(E, 'string_theory', False):
+        return z3.Concat(a, b)
+    a, b = z3.simplify(a), z3.simplify(b)
+    if z3.is_string_value(a) and z3.is_string_value(b):
+        return z3.StringVal(a.as_string() + b.as_string())
+    f = z3.Function('StrCat', z3.StringSort(), z3.StringSort(), z3.StringSort())
+    return f(a, b)
 
 
 def list_concat(E, ta, tb):
@@ -951,13 +991,21 @@ def install(E):
             return I.C(len(x.d))
         t = x.t
         V = Val
+        for rec, f in ((V.is_VStr, lambda: E.strlen(V.s(t))), (V.is_VBytes, lambda: E.strlen(V.bs(t))),
+                       (V.is_VList, lambda: V.llen(t)), (V.is_VTuple, lambda: V.tlen(t)),
+                       (V.is_VDict, lambda: V.dn(t)), (V.is_VSet, lambda: V.sn(t))):
+            if E.must(rec(t)):
+                n = f()
+                E.scoped_assume(n >= 0)
+                return I.T(V.VInt(n))
         ok = z3.Or(V.is_VStr(t), V.is_VBytes(t), V.is_VList(t), V.is_VTuple(t), V.is_VDict(t), V.is_VSet(t))
         E.fail_if(z3.Not(ok), TypeError, 'object has no len()')
-        n = z3.If(V.is_VStr(t), z3.Length(V.s(t)),
-            z3.If(V.is_VBytes(t), z3.Length(V.bs(t)),
+        n = z3.If(V.is_VStr(t), E.strlen(V.s(t)),
+            z3.If(V.is_VBytes(t), E.strlen(V.bs(t)),
             z3.If(V.is_VList(t), V.llen(t),
             z3.If(V.is_VTuple(t), V.tlen(t),
             z3.If(V.is_VDict(t), V.dn(t), V.sn(t))))))
+        E.scoped_assume(n >= 0)
         return I.T(V.VInt(z3.simplify(n)))
     M[len] = m_len
 
@@ -1028,7 +1076,9 @@ def install(E):
         isnum = vals.is_real(t)
         isstr = V.is_VStr(t)
         E.fail_if(z3.Not(z3.Or(isnum, isstr)), TypeError, 'float() argument must be a string or a number')
-        if not z3.is_false(z3.simplify(isstr)):
+        if not E.must(z3.Not(isstr)):
+            if E.merge:
+                raise I.Unsupported('float() of a value of undetermined kind in a specification')
             if E.path.branch(isstr, 'float(str)'):
                 f = z3.Function('StrToFloatOk', z3.StringSort(), z3.BoolSort())
                 g = z3.Function('StrToFloat', z3.StringSort(), vals.FP)
@@ -1120,6 +1170,19 @@ def install(E):
 
     M[_noop] = lambda E, args, kw: I.C(None)
 
+    import re as _re
+
+    def m_re_compile(E, args, kw):
+        if len(args) != 1 or kw:
+            raise I.Unsupported('re.compile with flags')
+        a = E.lift(args[0])
+        E.fail_if(z3.Not(Val.is_VStr(a)), TypeError, 'first argument must be string or compiled pattern')
+        okf = z3.Function('ReValid', z3.StringSort(), z3.BoolSort())
+        E.fail_if(z3.Not(okf(Val.s(a))), _re.error, 'invalid pattern')
+        f = z3.Function('ReCompile', z3.StringSort(), z3.IntSort())
+        return I.T(Val.VOther(f(Val.s(a))))
+    M[_re.compile] = m_re_compile
+
     def m_list(E, args, kw):
         if not args:
             return I.SList([])
@@ -1159,6 +1222,11 @@ def install(E):
     M[set] = m_set
 
     def m_any(E, args, kw):
+        if isinstance(args[0], I.SQuant):
+            q = args[0]
+            b = E.truth(q.body)
+            b = z3.BoolVal(b) if isinstance(b, bool) else b
+            return E.bool_sv(E.path.quant(z3.Exists([q.i], z3.And(q.i >= 0, q.i < q.n, b))))
         items = E.iter_items(args[0], None)
         if items is None:
             raise I.Unsupported('any() of symbolic iterable')
@@ -1169,6 +1237,11 @@ def install(E):
     M[any] = m_any
 
     def m_all(E, args, kw):
+        if isinstance(args[0], I.SQuant):
+            q = args[0]
+            b = E.truth(q.body)
+            b = z3.BoolVal(b) if isinstance(b, bool) else b
+            return E.bool_sv(E.path.quant(z3.ForAll([q.i], z3.Implies(z3.And(q.i >= 0, q.i < q.n), b))))
         items = E.iter_items(args[0], None)
         if items is None:
             raise I.Unsupported('all() of symbolic iterable')
@@ -1328,6 +1401,20 @@ def call_method(E, recv, name, args, kwargs):
     if isinstance(recv, I.STuple):
         raise I.Unsupported('tuple method %s' % name)
     t = recv.t
+    if name in ('items', 'keys', 'values') and not args:
+        E.fail_if(z3.Not(V.is_VDict(t)), AttributeError, name)
+        return I.SItems(t, name)
+    if name == 'match':
+        # compiled-pattern.match(s): opaque, deterministic; never raises on str
+        a = E.lift(args[0])
+        E.fail_if(z3.Not(z3.Or(V.is_VStr(a), V.is_VBytes(a))), TypeError, 'expected string or bytes-like object')
+        f = z3.Function('ReMatch', Val, Val, Val)
+        r = f(t, a)
+        E.scoped_assume(z3.Or(V.is_VNone(r), V.is_VOther(r)))
+        return I.T(r)
+    if name == 'total_seconds' and not args:
+        f = z3.Function('TimedeltaSeconds', Val, vals.FP)
+        return I.T(V.VFloat(f(t)))
     if name in ('startswith', 'endswith'):
         a = E.lift(args[0])
         E.fail_if(z3.Not(z3.Or(V.is_VStr(a), V.is_VTuple(a))), TypeError, name + ' arg')
